@@ -50,12 +50,12 @@ ALL_TAGS = ['lp', 'rp', 'lb', 'rb', 'case', 'end', 'if', 'endif', 'for', 'endloo
 def tag_inputs(ctx, quick, rng):
     """TLC-generated delimiter sequences, spelled; returns list of (text, tags, agree)"""
     seqs = []
-    seqs += bracket_sequences(ctx, ['lp', 'rp', 'x', 'ws'], 6 if quick else 8, 'BG_paren')
-    seqs += bracket_sequences(ctx, ['lp', 'rp', 'case', 'end', 'x'], 5 if quick else 7, 'BG_paren_case')
-    seqs += bracket_sequences(ctx, ['case', 'begin', 'end', 'lp', 'rp'], 5 if quick else 7, 'BG_shared_end')
-    seqs += bracket_sequences(ctx, ['lb', 'rb', 'x', 'lp', 'rp'], 4 if quick else 6, 'BG_brackets')
-    seqs += bracket_sequences(ctx, ['if', 'endif', 'for', 'endloop', 'begin', 'end'], 4 if quick else 6, 'BG_blocks')
-    seqs += bracket_sequences(ctx, ALL_TAGS, 24, 'BG_all', simulate=2000 if quick else 40000, seed=ctx.seed * 3 + 1, minlen=6)
+    seqs += bracket_sequences(ctx, ['lp', 'rp', 'x', 'ws'], 6 if quick else 7, 'BG_paren')
+    seqs += bracket_sequences(ctx, ['lp', 'rp', 'case', 'end', 'x'], 5 if quick else 6, 'BG_paren_case')
+    seqs += bracket_sequences(ctx, ['case', 'begin', 'end', 'lp', 'rp'], 5 if quick else 6, 'BG_shared_end')
+    seqs += bracket_sequences(ctx, ['lb', 'rb', 'x', 'lp', 'rp'], 4 if quick else 5, 'BG_brackets')
+    seqs += bracket_sequences(ctx, ['if', 'endif', 'for', 'endloop', 'begin', 'end'], 4 if quick else 5, 'BG_blocks')
+    seqs += bracket_sequences(ctx, ALL_TAGS, 24, 'BG_all', simulate=2000 if quick else 10000, seed=ctx.seed * 3 + 1, minlen=6)
     out = []
     seen = set()
     for s in seqs:
@@ -71,9 +71,9 @@ def script_inputs(ctx, quick, rng, label):
     """ScriptGen scripts (all constructs + junk) spelled"""
     from .checks.c04 import EVERYTHING
     checked_pools()
-    scripts = splitfam.emit_scripts(ctx, EVERYTHING, 5, label + '_emit', simulate=800 if quick else 20000,
+    scripts = splitfam.emit_scripts(ctx, EVERYTHING, 5, label + '_emit', simulate=800 if quick else 6000,
                                     maxlen=30 if quick else 45, minlen=3, seed=ctx.seed * 19 + 2)
-    scripts += splitfam.emit_scripts(ctx, ['junk'], 2, label + '_junk', simulate=800 if quick else 20000,
+    scripts += splitfam.emit_scripts(ctx, ['junk'], 2, label + '_junk', simulate=800 if quick else 6000,
                                      maxlen=14 if quick else 22, softlen=12 if quick else 20, minlen=2, seed=ctx.seed * 23 + 4)
     texts = []
     seen = set()
